@@ -315,6 +315,8 @@ func replay(run *hx.Run, lines []string) {
 				pdata = unhex(pd)
 			}
 			c.ValidateP2P(pdata, string(unhex(tp)), parseNow(ws), "replay")
+		case "e":
+			entryReplay(run, ws)
 		case "f":
 			fuzzReplay(run, ws)
 		case "k":
